@@ -262,6 +262,9 @@ func (a *AggregatePlan) batchGetAggrKeys(chunk []KVPair, ctx *ExecuteCtx) ([]str
 			if err != nil {
 				return nil, err
 			}
+			// Prefix each value with its length, the values of two
+			// different tuples must not run into the same key
+			aggKey = append(aggKey, []byte(fmt.Sprintf("%d:", len(bval)))...)
 			aggKey = append(aggKey, bval...)
 		}
 		ret[i] = string(aggKey)
@@ -509,7 +512,9 @@ func (a *AggregatePlan) getAggrKey(key []byte, val []byte, ctx *ExecuteCtx) (str
 		if err != nil {
 			return "", err
 		}
-		gkey += string(bval)
+		// Prefix each value with its length, the values of two
+		// different tuples must not run into the same key
+		gkey += fmt.Sprintf("%d:", len(bval)) + string(bval)
 	}
 	return gkey, nil
 }
